@@ -218,3 +218,17 @@ for t in ("f64", "f32"):
       "parse_float (generic code, abstract Float with the real %s constants; parse_number / moderate_path / slow replaced by ghost recorders returning contract-constrained symbolic results): fast-path value returned as is; else definite moderate result packed unchanged with no slow call; else exactly one slow call with (num, estimate un-biased by 32768, the original iterators) and its result packed unchanged" % t,
       ["parse::parse_float", "parse::moderate_path", "extended_float::extended_to_float"], features=["default", "compact"], zflags=("stubbing",), timeout=600)
 K("gdispatch_moderate_is_lemire", "parse", ["C01", "C02", "C05"], "moderate_path == lemire in non-compact builds (smoke-size domain: the wrapper has no logic)", ["parse::moderate_path"], strength="bounded", bound="mantissa < 1000, exponent 0..=5", features=["default", "alloc"], timeout=600)
+
+# --------------------------------------------------------------------------- P-SLOW (slow.rs)
+PSP = ["C01", "C02", "C04", "C06", "C07", "C05", "C09", "C10"]
+K("pslow_scientific_exponent", "slow", PSP, "scientific_exponent(num) == exponent + floor(log10 mantissa) for every u64 mantissa, |exponent| <= 2^31-21", ["slow::scientific_exponent"], features=["default", "compact"])
+for t, md in (("f64", 769), ("f32", 114)):
+    K("pslow_slow_glue_" + t, "slow", PSP, "slow::<%s> with parse_mantissa / positive_digit_comp / negative_digit_comp replaced by ghost recorders: keeps %d digits; scale = scientific_exponent + 1 - digits kept; sign of scale selects the comparison; estimate passed unchanged; result returned unchanged" % (t, md), ["slow::slow"], features=["default", "compact"], zflags=("stubbing",), timeout=600)
+    for ln in (1, 2, 3):
+        K("pslow_positive_comp_%s_%d" % (t, ln), "slow", PSP, "positive_digit_comp::<%s> with Bigint::pow a ghost recorder (contract: value becomes digits*10^e): one scaling by 10^e; packed result == RNE(sticky) of the big integer's value (top 64 bits, bit length, all lower bits)" % t, ["slow::positive_digit_comp", "bigint::Bigint::hi64", "bigint::Bigint::bit_length"], strength="bounded", bound="scaled integer of %d limbs (all limb values)" % ln, features=["default", "compact"], zflags=("stubbing",), timeout=900, tier="quick" if ln in (1, 2) else "thorough")
+
+PMANT_CASES = ['pslow_pmant_i0_f23_z1_m21', 'pslow_pmant_i3_f0_all', 'pslow_pmant_i0_f5_z2_all', 'pslow_pmant_i0_f3_z3_all', 'pslow_pmant_i2_f3_all', 'pslow_pmant_i20_f0_all', 'pslow_pmant_i19_f2_all', 'pslow_pmant_i5_f5_m3', 'pslow_pmant_i2_f5_m4', 'pslow_pmant_i2_f5_m7', 'pslow_pmant_i0_f8_z2_m4', 'pslow_pmant_i21_f0_m20', 'pslow_pmant_i19_f3_m19', 'pslow_pmant_i10_f12_m21']
+PMANT_QUICK = ['pslow_pmant_i3_f0_all', 'pslow_pmant_i0_f5_z2_all', 'pslow_pmant_i5_f5_m3', 'pslow_pmant_i2_f5_m4', 'pslow_pmant_i0_f8_z2_m4', 'pslow_pmant_i2_f3_all', 'pslow_pmant_i21_f0_m20']
+for nm in PMANT_CASES:
+    K(nm, "slow", PSP, "parse_mantissa(int, frac, max_digits), vector mul_small/add_small replaced by ghost value recorders (contracts c12_small_mul / c12_small_add_from): big integer == first min(significant, max_digits) significant digits (leading fraction zeros skipped when there is no integer part), plus ONE digit '1' iff a later digit of integer or fraction is non-zero (trailing zeros never add it); count == digits in that integer", ["slow::parse_mantissa"], zflags=("stubbing",),
+      strength="bounded", bound="digit-count shape %s (i integer digits, f fraction digits, z leading zeros, m/all = max_digits), all digit values symbolic" % nm[12:], features=["default", "compact"], timeout=1200, tier="quick" if nm in PMANT_QUICK else "thorough")
